@@ -152,12 +152,20 @@ def build(m):
     m.add(Contract('re:Table.delimiter_row_pattern.fullmatch', [('s', STR)], returns=BOOL, trusted=True, pure=True,
                    ensures=['result == delimiter_row_fullmatch(s)'],
                    note='A5 capture contract: only the truth value of fullmatch is used'))
+    # a prefix match says less than a full match: a change from fullmatch to match fails the clause below
+    # instead of leaving Table.read outside the subset
+    m.ufunc('delimiter_row_prefixmatch', [STR], BOOL)
+    m.add(Contract('re:Table.delimiter_row_pattern.match', [('s', STR)], returns=BOOL, trusted=True, pure=True,
+                   ensures=['result == delimiter_row_prefixmatch(s)', 'implies(delimiter_row_fullmatch(s), result)'],
+                   note='A5 capture contract: truth value of a prefix match (implied by, not equivalent to, the full match)'))
     method('Table', 'read', Contract(
         MOD + ':Table.read', [('cls', cls_t('Table')), ('lines', FW)],
         returns=TOpt(TTuple([TList(STR), INT])),
         requires=READER_REQ,
         ensures=READER_ENS + [
             'implies(not is_none(result), len(some(result)[0]) >= 2)',
+            # C14 / C03 (GFM): a table needs a delimiter row - the WHOLE second line is one
+            ('implies(not is_none(result), delimiter_row_fullmatch(some(result)[0][1]))', ['C14', 'C03']),
             # C13: the recorded start line is the line of the header row
             'implies(not is_none(result), some(result)[1] == lines.start_line + old(lines._index) + 1)',
             'implies(not is_none(result), lines._index == old(lines._index) + len(some(result)[0]))'],
